@@ -12,10 +12,10 @@ SPEC = {
             "(grammar, closed tree, min/max mutations, PRNG seed, strategy). distinct = distinct (grammar, input tree "
             "shape, settings, seed). Oracle: R1 validity, closedness by own walk, label/arity/id preservation at every "
             "path of the input.",
-    "minimum": {"quick": {"expansions_judged": 3000, "mutations_judged": 300, "strategy_calls": 300, "expansions_judged_in_situ": 30},
+    "minimum": {"quick": {"expansions_judged": 3000, "mutations_judged": 300, "strategy_calls": 300, "expansions_judged_in_situ": 30, "mutation_inputs_with_non_start_root": 100},
                 "thorough": {"expansions_judged": 60000, "mutations_judged": 5000}},
     "assumptions": ["R1 tree validity (islamon/ref/grammar.py)",
-                    "'for every random choice' is sampled over PRNG seeds, not enumerated",
+                    "'for every random choice' is sampled over PRNG seeds, not enumerated", "mutation inputs have at least one expanded node (a lone epsilon node is skipped)",
                     "Mutator.mutate on this venv raises through returns-0.29 API drift (known finding); the trees it "
                     "would return are judged in a second pass with a compatibility shim for returns.safe/Maybe.nothing"],
 }
@@ -157,6 +157,13 @@ def run(ctx):
                 mn, mx = rng.choice([(0, 10), (1, 6), (0, 30), (0, 10)])
                 judge_expand(ctx, g, m, t, rng.choice(["cov", "plain"]), mn, mx, rng.randrange(10 ** 6))
             if rng.random() < 0.6:
+                if rng.random() < 0.4:
+                    # a closed tree rooted at some other nonterminal: the mutant must keep that root symbol
+                    closed = m.random_tree(rng, start=rng.choice(list(m.cg)), budget=rng.choice([1, 3, 8]))
+                    if not closed[1]:
+                        ctx.count("degenerate_mutation_input_skipped")   # a lone epsilon node has nothing to mutate
+                        continue
+                    ctx.count("mutation_inputs_with_non_start_root")
                 strat = rng.choice(["mutate", "mutate", "replace_subtree_randomly", "generalize_subtree", "swap_subtrees"])
                 mn, mx = rng.choice([(1, 1), (2, 5)])
                 seed = rng.randrange(10 ** 6)
